@@ -7,8 +7,8 @@ import (
 
 	"github.com/oasisprotocol/oasis-core/go/common"
 	"github.com/oasisprotocol/oasis-core/go/common/crypto/hash"
-	badgerDb "github.com/oasisprotocol/oasis-core/go/storage/mkvs/db/badger"
 	dbApi "github.com/oasisprotocol/oasis-core/go/storage/mkvs/db/api"
+	badgerDb "github.com/oasisprotocol/oasis-core/go/storage/mkvs/db/badger"
 	pathBadgerDb "github.com/oasisprotocol/oasis-core/go/storage/mkvs/db/pathbadger"
 	"github.com/oasisprotocol/oasis-core/go/storage/mkvs/node"
 )
